@@ -26,6 +26,11 @@ RULES = [
     (r"^layout/A1=1\.5E\+3$", "KF-C08-blank-inside-decimal-literal"),
     (r"^rule-kind/exp/A1\*2$", "KF-C14-BinaryExp-always-string-kinded"),
     (r"^mutations/HCIRCLE\(A1,A1\),A1,A1$", "KF-C15-HCIRCLE-trailing-comma-internal-error"),
+    (r"^declared/(argument of|READ target|INPUT target|LINE INPUT target|subscript of a READ target)", "KF-C10-names-in-untraversed-positions-undeclared"),
+    (r"^declared/(implicit string array|ELSE arm after ELSE IF)", "KF-C10-implicit-string-array-unsized"),
+    (r"^user-text/comment with an odd quote", "KF-C13-odd-quote-in-comment-defeats-placeholder-substitution"),
+    (r"^user-text/comment that mentions a call", "KF-C13-RUN-in-comment-counts-as-a-call"),
+    (r"^string/counts -2\.\.255, declared capacity 32$", "KF-C20-STRING$-result-cut-to-declared-capacity"),
     (r"^kinds/ecb_joystk/", "KF-C04-JOYSTK-call-passes-2-of-6-arguments"),
     (r"^kinds/ecb_hprint/numeric item", "KF-C14-HPRINT-numeric-item-gets-numeric-temporary"),
 ]
